@@ -131,6 +131,15 @@ func init() {
 		return nil
 	})
 	v("AtomicOps", func(ex *Exec, c *frame, fn *ssa.Function, a []Value) Value { return int64(ex.atomicOps) })
+	// RaceReports(): the data races seen so far on this path (both accesses in code under test), one string
+	// "kind: first-access-position / second-access-position" each.
+	v("RaceReports", func(ex *Exec, c *frame, fn *ssa.Function, a []Value) Value {
+		arr := &Array{}
+		for _, r := range ex.races {
+			arr.E = append(arr.E, &Cell{V: r.Kind + ": " + r.First + " / " + r.Second})
+		}
+		return Slice{Arr: arr, Len: len(arr.E), Cap: len(arr.E)}
+	})
 	// FreezeGlobals(tag, pkgs...): every package-level variable of the named module packages (and what they
 	// reach) is frozen under tag.
 	v("FreezeGlobals", func(ex *Exec, c *frame, fn *ssa.Function, a []Value) Value {
